@@ -1,19 +1,245 @@
-"""C15 — tree ranks / combinatorics.  Families compare tskit.combinatorics with the
-Gallina model (coq/theories/C15) and evaluate independent oracles."""
+"""C15 — tree ranks are a bijection; topology counts match brute force.
+
+Families compare tskit.combinatorics / Tree.rank / Tree.unrank / all_trees /
+count_topologies (the build staged from /repo) with
+  (a) the Gallina model coq/theories/C15/{Combination,Partitions,RankTree}.v, evaluated by
+      vm_compute on the same cases (coq_check), and
+  (b) independent brute-force oracles written from the property text (oracle): all
+      leaf-labelled unary-free topologies are enumerated as canonical nested tuples by
+      recursive set partition, without using any tskit ranking code.
+
+Canonical tree encoding used everywhere: a leaf is its integer label, an internal node is the
+list of its children sorted by smallest leaf label.
+"""
 import itertools
 import math
+import random
 
 from harness.runner import Family
 from harness.common import cz, cn, clist, copt
+
+PRELUDE = ("From Coq Require Import List ZArith Bool.\nImport ListNotations.\n"
+           "From TskVerif Require Import Base.Common C15.Combination C15.Partitions C15.RankTree.\n"
+           "Open Scope Z_scope.\n"
+           "Definition pt_is (r : res pt) (t : pt) : bool := match r with Ok x => pt_eqb (pt_canon x) t | _ => false end.\n"
+           "Definition pts_are (r : res (list pt)) (l : list pt) : bool := match r with Ok x => list_eqb pt_eqb (map pt_canon x) l | _ => false end.\n"
+           "Definition rank_is (r : res (Z * Z)) (s l : Z) : bool := match r with Ok (a, b) => (a =? s) && (b =? l) | _ => false end.\n"
+           "Definition z_is (r : res Z) (z : Z) : bool := match r with Ok a => a =? z | _ => false end.\n"
+           "Definition err_is {A} (r : res A) (c : Z) : bool := match r with Err a => a =? c | _ => false end.\n"
+           "Definition zll_is (r : res (list (list Z))) (l : list (list Z)) : bool := match r with Ok a => list_eqb zlist_eqb a l | _ => false end.\n"
+           "Definition oob_is {A} (r : res A) : bool := match r with OOB => true | _ => false end.\n")
 
 
 def exc_class(e):
     return type(e).__name__
 
 
+# ----------------------------------------------------------------------------------------
+# independent brute force (no tskit)
+# ----------------------------------------------------------------------------------------
+
+def set_partitions(items):
+    """All partitions of the tuple `items` into non-empty blocks (blocks and partition sorted
+    by first element)."""
+    if not items:
+        yield []
+        return
+    first, rest = items[0], items[1:]
+    for r in range(len(rest) + 1):
+        for others in itertools.combinations(rest, r):
+            block = (first,) + others
+            remaining = tuple(x for x in rest if x not in others)
+            for p in set_partitions(remaining):
+                yield [block] + p
+
+
+_TOPO_CACHE = {}
+
+
+def all_topologies(labels):
+    """Every leaf-labelled tree without unary nodes on the label tuple, canonical form."""
+    labels = tuple(labels)
+    if labels in _TOPO_CACHE:
+        return _TOPO_CACHE[labels]
+    if len(labels) == 1:
+        out = [labels[0]]
+    else:
+        out = []
+        for p in set_partitions(labels):
+            if len(p) < 2:
+                continue
+            for kids in itertools.product(*[all_topologies(b) for b in p]):
+                out.append(list(kids))        # blocks sorted by first = smallest label
+    _TOPO_CACHE[labels] = out
+    return out
+
+
+def freeze(t):
+    return t if isinstance(t, int) else tuple(freeze(c) for c in t)
+
+
+def canon(t):
+    """Canonical form (children sorted by smallest leaf) of a nested list; returns (tree, min)."""
+    if isinstance(t, int):
+        return t, t
+    kids = sorted((canon(c) for c in t), key=lambda p: p[1])
+    return [k for k, _ in kids], kids[0][1]
+
+
+def leaves_of(t):
+    return [t] if isinstance(t, int) else [x for c in t for x in leaves_of(c)]
+
+
+def shape_of(t):
+    """Unlabelled canonical shape: sorted tuple of child shapes."""
+    if isinstance(t, int):
+        return ()
+    return tuple(sorted(shape_of(c) for c in t))
+
+
+def aut_order(shape):
+    a = 1
+    for c in shape:
+        a *= aut_order(c)
+    for _s, grp in itertools.groupby(shape):
+        a *= math.factorial(len(list(grp)))
+    return a
+
+
+def has_unary(t):
+    if isinstance(t, int):
+        return False
+    return len(t) == 1 or any(has_unary(c) for c in t)
+
+
+def n_labellings_of(t):
+    return math.factorial(len(leaves_of(t))) // aut_order(shape_of(t))
+
+
+def bf_num_shapes_fast(n):
+    """A000669 by the Euler transform: S(m) = number of multisets of >= 2 smaller trees with m
+    leaves in total; independent of the partition-based recursion in tskit."""
+    S = [0, 1]
+    for m in range(2, n + 1):
+        poly = [1] + [0] * m
+        for k in range(1, m):
+            # multiply by (1 - x^k)^(-S[k]) using binomial series
+            new = [0] * (m + 1)
+            for j in range(0, m // k + 1):
+                c = math.comb(S[k] + j - 1, j)
+                for i in range(0, m + 1 - j * k):
+                    new[i + j * k] += poly[i] * c
+            poly = new
+        S.append(poly[m])
+    return S[n] if n >= 0 else 0
+
+
+def bf_partitions(n, m=1):
+    """Ascending compositions of n with parts >= m, lexicographic."""
+    out = []
+    for x in range(m, n // 2 + 1):
+        out += [[x] + p for p in bf_partitions(n - x, x)]
+    if n >= m:
+        out.append([n])
+    return out
+
+
+# ----------------------------------------------------------------------------------------
+# tskit <-> nested
+# ----------------------------------------------------------------------------------------
+
+def nested_of_tree(tree, keep_order=False):
+    """Nested encoding of a single-rooted tskit.Tree (leaf = node id)."""
+    def rec(u):
+        ch = list(tree.children(u))
+        if not ch:
+            return int(u)
+        return [rec(c) for c in ch]
+    t = rec(tree.root)
+    return t if keep_order else canon(t)[0]
+
+
+def build_tree(nested, ids=None, rng=None, jitter=False):
+    """A real tskit.Tree for a nested tree whose leaf labels are node ids.  `ids`: optional map
+    for internal nodes (by preorder index) -> node id; default: after the leaves.  Times: a
+    parent is older than its children by a random positive amount when jitter is set."""
+    import tskit
+    leaves = leaves_of(nested)
+    internal = []
+
+    def collect(t):
+        if isinstance(t, int):
+            return
+        internal.append(t)
+        for c in t:
+            collect(c)
+    collect(nested)
+    m = len(leaves) + len(internal)
+    free = [i for i in range(m) if i not in set(leaves)]
+    assert len(free) == len(internal), "leaf ids must lie in [0, total nodes)"
+    if ids is None:
+        ids = list(free)
+    int_id = {id(t): ids[i] for i, t in enumerate(internal)}
+    time = {}
+    edges = []
+
+    def rec(t):
+        if isinstance(t, int):
+            time[t] = (rng.choice([0, 0, 0.5, 1.25]) if (jitter and rng) else 0)
+            return t
+        kid_ids = [rec(c) for c in t]
+        u = int_id[id(t)]
+        inc = (rng.choice([0.25, 1, 1, 3.5, 1e-3, 1e6]) if (jitter and rng) else 1)
+        time[u] = max(time[k] for k in kid_ids) + inc
+        for k in kid_ids:
+            edges.append((u, k))
+        return u
+    rec(nested)
+    tables = tskit.TableCollection(1.0 if not (jitter and rng) else rng.choice([1.0, 0.5, 7.25]))
+    L = tables.sequence_length
+    lf = set(leaves)
+    for i in range(m):
+        tables.nodes.add_row(flags=1 if i in lf else 0, time=time[i])
+    if rng:
+        rng.shuffle(edges)
+    for p, c in edges:
+        tables.edges.add_row(0, L, p, c)
+    tables.sort()
+    return tables.tree_sequence().first()
+
+
+def cpt(t):
+    if isinstance(t, int):
+        return "PL %s" % cz(t)
+    return "PN [" + "; ".join(cpt(c) for c in t) + "]"
+
+
+def crank(r):
+    return "(%s, %s)" % (cz(r[0]), cz(r[1]))
+
+
+def random_topology(rng, labels, p_poly=0.35):
+    """Random unary-free topology on the labels (polytomies with probability p_poly)."""
+    labels = list(labels)
+    if len(labels) == 1:
+        return labels[0]
+    rng.shuffle(labels)
+    k = 2
+    while k < len(labels) and rng.random() < p_poly:
+        k += 1
+    cuts = sorted(rng.sample(range(1, len(labels)), k - 1))
+    blocks = [labels[a:b] for a, b in zip([0] + cuts, cuts + [len(labels)])]
+    return canon([random_topology(rng, b, p_poly) for b in blocks])[0]
+
+
+# ----------------------------------------------------------------------------------------
+# Combination
+# ----------------------------------------------------------------------------------------
+
 class Comb(Family):
     name = "comb"
     prelude = "From TskVerif Require Import C15.Combination.\nOpen Scope Z_scope."
+    workers = 4
 
     def generate(self, rng, tier):
         for n in range(-2, 14):
@@ -44,9 +270,10 @@ class Comb(Family):
 
 
 class CombRank(Family):
-    """Combination.from_range_rank / unrank: lexicographic bijection."""
+    """Combination.from_range_rank / rank / unrank: lexicographic bijection."""
     name = "comb_rank"
     prelude = "From TskVerif Require Import Base.Common C15.Combination.\nOpen Scope Z_scope."
+    workers = 4
 
     def generate(self, rng, tier):
         top = 7 if tier == "quick" else 9
@@ -55,13 +282,30 @@ class CombRank(Family):
                 for r, c in enumerate(itertools.combinations(range(n), k)):
                     yield {"n": n, "c": list(c), "r": r}
                 yield {"n": n, "c": None, "k": k, "r": math.comb(n, k)}      # out of range
+                yield {"n": n, "c": None, "k": k, "r": math.comb(n, k) + 3}
+                yield {"n": n, "c": None, "k": k, "r": -1}                    # negative: accepted by the helper
         for _ in range(200 if tier == "quick" else 2000):
             n = rng.randrange(8, 40)
             k = rng.randrange(0, n + 1)
             yield {"n": n, "c": sorted(rng.sample(range(n), k)), "r": None}
+        # Combination.rank over arbitrary (sorted, distinct) element lists
+        for _ in range(150 if tier == "quick" else 1500):
+            n = rng.randrange(1, 12)
+            els = sorted(rng.sample(range(-5, 40), n))
+            k = rng.randrange(0, n + 1)
+            sub = sorted(rng.sample(els, k))
+            if rng.random() < 0.1:
+                sub = sub + [99]       # absent element -> ValueError
+            yield {"els": els, "sub": sub}
 
     def observe(self, case):
         from tskit.combinatorics import Combination
+        if "els" in case:
+            try:
+                r = Combination.rank(list(case["sub"]), list(case["els"]))
+                return {"rank": r, "unrank": Combination.unrank(r, list(case["els"]), len(case["sub"]))}
+            except Exception as e:
+                return {"rank": exc_class(e)}
         n = case["n"]
         if case["c"] is None:
             try:
@@ -73,11 +317,23 @@ class CombRank(Family):
 
     def oracle(self, case, obs):
         out = []
+        if "els" in case:
+            els, sub = case["els"], case["sub"]
+            if 99 in sub:
+                if obs["rank"] != "ValueError":
+                    out.append(("rank-absent-element-accepted", repr(obs)))
+                return out
+            want = list(itertools.combinations(els, len(sub))).index(tuple(sub))
+            if obs.get("rank") != want:
+                out.append(("rank-not-lexicographic", "rank %r != %r" % (obs.get("rank"), want)))
+            elif obs["unrank"] != sub:
+                out.append(("unrank-rank", "unrank(rank(c)) = %r != %r" % (obs["unrank"], sub)))
+            return out
         if case["c"] is None:
-            # k == 0 short-circuits before any range check; this helper is only reached
-            # from Tree.unrank with k >= 1 groups (the public out-of-range check is the
-            # RankTree family), so only k >= 1 is demanded here.
-            if case["k"] > 0 and obs["unrank"] != "ValueError":
+            # k == 0 short-circuits before any range check and a negative rank is taken for
+            # rank 0 by this helper; the public range check (negative ranks, k >= 1 groups) is
+            # in RankTree.unrank and is exercised by the tree_oor family.
+            if case["k"] > 0 and case["r"] >= 0 and obs["unrank"] != "ValueError":
                 out.append(("unrank-out-of-range-accepted", "unrank(%d, n=%d, k=%d) -> %r" % (case["r"], case["n"], case["k"], obs["unrank"])))
             return out
         if case["r"] is not None and obs["rank"] != case["r"]:
@@ -87,20 +343,1001 @@ class CombRank(Family):
         return out
 
     def coq_check(self, case, obs):
+        if "els" in case:
+            els, sub = clist(case["els"]), clist(case["sub"])
+            if not isinstance(obs["rank"], int):
+                return "opt_eqb Z.eqb (comb_rank %s %s) None" % (sub, els)
+            return ("opt_eqb Z.eqb (comb_rank %s %s) (Some %s) && opt_eqb zlist_eqb (unrank %s %s %s) (Some %s)"
+                    % (sub, els, cz(obs["rank"]), cz(obs["rank"]), els, cn(len(case["sub"])), clist(obs["unrank"])))
         n = case["n"]
         els = clist(range(n))
         if case["c"] is None:
             exp = "None" if obs["unrank"] == "ValueError" else "(Some %s)" % clist(obs["unrank"])
             return "opt_eqb zlist_eqb (unrank %s %s %s) %s" % (cz(case["r"]), els, cn(case["k"]), exp)
         return ("opt_eqb Z.eqb (from_range_rank %s %s %s) (Some %s) && opt_eqb zlist_eqb (unrank %s %s %s) (Some %s)"
-                % (cn(n + len(case["c"]) + 2), clist(case["c"]), cz(n), cz(obs["rank"]),
+                % (cn(n + 1), clist(case["c"]), cz(n), cz(obs["rank"]),
                    cz(obs["rank"]), els, cn(len(case["c"])), clist(obs["unrank"])))
 
     def nontrivial(self, case, obs):
+        if "els" in case:
+            return 0 < len(case["sub"]) < len(case["els"])
         return case["c"] is not None and 0 < len(case["c"]) < case["n"]
 
     def describe(self, case, obs):
+        if "els" in case:
+            return {"kind": "rank-elements"}
         return {"n": case["n"] if case["n"] < 10 else "10+"}
 
 
-FAMILIES = [Comb, CombRank]
+class CombWR(Family):
+    """Combination.with_replacement_rank / with_replacement_unrank."""
+    name = "comb_wr"
+    prelude = "From TskVerif Require Import Base.Common C15.Combination.\nOpen Scope Z_scope."
+    workers = 4
+
+    def generate(self, rng, tier):
+        top_n, top_k = (6, 4) if tier == "quick" else (8, 5)
+        for n in range(0, top_n + 1):
+            for k in range(0, top_k + 1):
+                total = 0
+                for r, c in enumerate(itertools.combinations_with_replacement(range(n), k)):
+                    yield {"n": n, "k": k, "c": list(c), "r": r}
+                    total += 1
+                # beyond the range: the helper does not reject (documented in the model)
+                for extra in (0, 1, 5):
+                    yield {"n": n, "k": k, "c": None, "r": total + extra}
+        for _ in range(200 if tier == "quick" else 3000):
+            n = rng.randrange(1, 60)
+            k = rng.randrange(1, 9)
+            c = sorted(rng.randrange(n) for _ in range(k))
+            yield {"n": n, "k": k, "c": c, "r": None}
+        for _ in range(60 if tier == "quick" else 600):       # big-integer n (num_shapes is huge)
+            n = rng.randrange(1, 10 ** rng.randrange(3, 30))
+            k = rng.randrange(1, 5)
+            # with_replacement_rank loops c[0] times, with_replacement_unrank as well
+            c0 = rng.randrange(min(n, 400))
+            c = [c0] + sorted(rng.randrange(c0, min(n, c0 + 400)) for _ in range(k - 1))
+            yield {"n": n, "k": k, "c": c, "r": None, "big": True}
+
+    def observe(self, case):
+        from tskit.combinatorics import Combination
+        n, k = case["n"], case["k"]
+        if case["c"] is None:
+            if case["r"] > 400:
+                return {"unrank": None}
+            return {"unrank": Combination.with_replacement_unrank(case["r"], n, k)}
+        r = Combination.with_replacement_rank(list(case["c"]), n)
+        if case.get("big"):
+            # the while loop of with_replacement_unrank takes c[0] turns: skip when astronomically long
+            return {"rank": r, "unrank": (Combination.with_replacement_unrank(r, n, k) if case["c"][0] < 2000 else None)}
+        return {"rank": r, "unrank": Combination.with_replacement_unrank(r, n, k)}
+
+    def oracle(self, case, obs):
+        out = []
+        if case["c"] is None:
+            return out
+        if case["r"] is not None and obs["rank"] != case["r"]:
+            out.append(("wr-rank-not-lexicographic", "rank %r != %r" % (obs["rank"], case["r"])))
+        if case["r"] is None:
+            # independent closed form: number of multisets lexicographically smaller
+            n, k, c = case["n"], case["k"], case["c"]
+            want, lo = 0, 0
+            for pos, x in enumerate(c):
+                rem = k - pos - 1
+                for v in range(lo, x) if x - lo < 5000 else []:
+                    want += math.comb((n - v) + rem - 1, rem)
+                if x - lo >= 5000:
+                    want = None
+                    break
+                lo = x
+            if want is not None and obs["rank"] != want:
+                out.append(("wr-rank-not-lexicographic", "rank %r != %r" % (obs["rank"], want)))
+        if obs["unrank"] is not None and obs["unrank"] != case["c"]:
+            out.append(("wr-unrank-rank", "unrank(rank(c)) = %r != %r" % (obs["unrank"], case["c"])))
+        return out
+
+    def coq_check(self, case, obs):
+        n, k = case["n"], case["k"]
+        if case["c"] is None:
+            if obs["unrank"] is None:
+                return None
+            return "opt_eqb zlist_eqb (with_replacement_unrank %s %s %s) (Some %s)" % (
+                cz(case["r"]), cz(n), cn(k), clist(obs["unrank"]))
+        t = "opt_eqb Z.eqb (with_replacement_rank %s %s) (Some %s)" % (clist(case["c"]), cz(n), cz(obs["rank"]))
+        if obs["unrank"] is not None and (not case["c"] or case["c"][0] < 300):
+            t += " && opt_eqb zlist_eqb (with_replacement_unrank %s %s %s) (Some %s)" % (
+                cz(obs["rank"]), cz(n), cn(k), clist(obs["unrank"]))
+        return t
+
+    def nontrivial(self, case, obs):
+        return case["c"] is not None and case["k"] >= 2
+
+    def describe(self, case, obs):
+        return {"k": case["k"], "kind": "oor" if case["c"] is None else ("big" if case.get("big") else "in")}
+
+
+class Parts(Family):
+    """rule_asc / partitions / group_by / group_partition."""
+    name = "partitions"
+    prelude = PRELUDE
+    workers = 4
+
+    def generate(self, rng, tier):
+        for n in range(-1, 15):
+            yield {"kind": "full", "n": n}
+        for n in range(15, 31 if tier == "quick" else 41):
+            yield {"kind": "sample", "n": n, "idx": sorted(rng.randrange(0, 200000) for _ in range(6))}
+        for _ in range(80 if tier == "quick" else 800):
+            m = rng.randrange(0, 10)
+            yield {"kind": "group", "vals": [rng.randrange(0, 4) for _ in range(m)]}
+
+    def observe(self, case):
+        from tskit import combinatorics as c
+        if case["kind"] == "group":
+            return {"group_partition": c.group_partition(list(case["vals"])),
+                    "group_mod2": c.group_by(list(case["vals"]), lambda a, b: a % 2 == b % 2)}
+        n = case["n"]
+        try:
+            asc = [list(a) for a in c.rule_asc(n)]
+        except Exception as e:
+            asc = exc_class(e)
+        parts = [list(a) for a in c.partitions(n)]
+        if case["kind"] == "full":
+            return {"rule_asc": asc, "partitions": parts}
+        idx = [i % len(asc) for i in case["idx"]]
+        return {"len_asc": len(asc), "len_parts": len(parts), "idx": idx,
+                "asc_at": [asc[i] for i in idx], "last": asc[-1], "sums_ok": all(sum(a) == n for a in asc),
+                "sorted_unique": all(asc[i] < asc[i + 1] for i in range(len(asc) - 1)),
+                "ascending": all(a[i] <= a[i + 1] for a in asc for i in range(len(a) - 1)),
+                "positive": all(x >= 1 for a in asc for x in a)}
+
+    def oracle(self, case, obs):
+        out = []
+        if case["kind"] == "group":
+            vals = case["vals"]
+            want = [list(g) for _k, g in itertools.groupby(vals)]
+            if obs["group_partition"] != want:
+                out.append(("group-partition", "%r != %r" % (obs["group_partition"], want)))
+            return out
+        n = case["n"]
+        if case["kind"] == "full":
+            if n >= 1:
+                want = bf_partitions(n)
+                if obs["rule_asc"] != want:
+                    out.append(("rule-asc-incomplete", "n=%d" % n))
+                if obs["partitions"] != want[:-1]:
+                    out.append(("partitions-wrong", "n=%d" % n))
+            elif obs["partitions"] != []:
+                out.append(("partitions-wrong", "n=%d" % n))
+            return out
+        # n >= 15: every ascending composition exactly once <=> strictly increasing list of
+        # ascending positive compositions of n whose length is p(n)
+        pn = _num_partitions(n)
+        if not (obs["len_asc"] == pn and obs["sums_ok"] and obs["sorted_unique"] and obs["ascending"]
+                and obs["positive"] and obs["last"] == [n] and obs["len_parts"] == pn - 1):
+            out.append(("rule-asc-incomplete", "n=%d: %r" % (n, {k: v for k, v in obs.items() if k != "asc_at"})))
+        return out
+
+    def coq_check(self, case, obs):
+        cll = lambda ll: "[" + "; ".join(clist(l) for l in ll) + "]"
+        if case["kind"] == "group":
+            return ("list_eqb zlist_eqb (group_partition %s) %s && list_eqb zlist_eqb (group_by %s (fun a b => (a mod 2) =? (b mod 2))) %s"
+                    % (clist(case["vals"]), cll(obs["group_partition"]), clist(case["vals"]), cll(obs["group_mod2"])))
+        n = case["n"]
+        if case["kind"] == "full":
+            a = "oob_is (rule_asc %s)" % cz(n) if obs["rule_asc"] == "IndexError" else "zll_is (rule_asc %s) %s" % (cz(n), cll(obs["rule_asc"]))
+            return a + " && zll_is (partitions %s) %s" % (cz(n), cll(obs["partitions"]))
+        checks = " && ".join("opt_eqb zlist_eqb (nth_error l %s) (Some %s)" % (cn(i), clist(a))
+                             for i, a in zip(obs["idx"], obs["asc_at"]))
+        return ("match rule_asc %s, partitions %s with Ok l, Ok p => (Z.of_nat (length l) =? %s) && (Z.of_nat (length p) =? %s) && %s | _, _ => false end"
+                % (cz(n), cz(n), cz(obs["len_asc"]), cz(obs["len_parts"]), checks))
+
+    def nontrivial(self, case, obs):
+        return case["kind"] == "group" or case["n"] >= 2
+
+    def describe(self, case, obs):
+        return {"kind": case["kind"]}
+
+
+_PN = {}
+
+
+def _num_partitions(n):
+    """p(n) by Euler's pentagonal recurrence (independent of any enumeration)."""
+    if n < 0:
+        return 0
+    if n == 0:
+        return 1
+    if n in _PN:
+        return _PN[n]
+    s, k = 0, 1
+    while True:
+        g1, g2 = k * (3 * k - 1) // 2, k * (3 * k + 1) // 2
+        if g1 > n:
+            break
+        sign = 1 if k % 2 else -1
+        s += sign * _num_partitions(n - g1)
+        if g2 <= n:
+            s += sign * _num_partitions(n - g2)
+        k += 1
+    _PN[n] = s
+    return s
+
+
+class NumShapes(Family):
+    """num_shapes / num_tree_pairings / num_labellings."""
+    name = "num_shapes"
+    prelude = PRELUDE
+    workers = 4
+    timeout = 60.0
+
+    def generate(self, rng, tier):
+        for n in range(-2, 17 if tier == "quick" else 19):
+            yield {"kind": "ns", "n": n}
+        for _ in range(60 if tier == "quick" else 400):
+            n = rng.randrange(2, 15)
+            yield {"kind": "ntp", "part": rng.choice(bf_partitions(n))}
+
+    def observe(self, case):
+        from tskit import combinatorics as c
+        if case["kind"] == "ns":
+            return c.num_shapes(case["n"])
+        return c.num_tree_pairings(list(case["part"]))
+
+    def oracle(self, case, obs):
+        if case["kind"] == "ns":
+            n = case["n"]
+            if n >= 1 and obs != bf_num_shapes_fast(n):
+                return [("num-shapes", "num_shapes(%d)=%d, Euler transform gives %d" % (n, obs, bf_num_shapes_fast(n)))]
+            return []
+        want = 1
+        for k, g in itertools.groupby(case["part"]):
+            m = len(list(g))
+            want *= math.comb(bf_num_shapes_fast(k) + m - 1, m)
+        if obs != want:
+            return [("num-tree-pairings", "%r: %d != %d" % (case["part"], obs, want))]
+        return []
+
+    def coq_check(self, case, obs):
+        if case["kind"] == "ns":
+            return "z_is (num_shapes %s) %s" % (cz(case["n"]), cz(obs))
+        return "z_is (num_tree_pairings %s) %s" % (clist(case["part"]), cz(obs))
+
+    def nontrivial(self, case, obs):
+        return case["kind"] == "ntp" or case["n"] >= 3
+
+    def describe(self, case, obs):
+        return {"kind": case["kind"]}
+
+
+# ----------------------------------------------------------------------------------------
+# Trees
+# ----------------------------------------------------------------------------------------
+
+def _unrank_obs(n, s, l):
+    import tskit
+    try:
+        t = tskit.Tree.unrank(n, (s, l))
+    except Exception as e:
+        return {"exc": exc_class(e)}
+    try:
+        r = t.rank()
+        rk = [int(r[0]), int(r[1])]
+    except Exception as e:
+        rk = exc_class(e)
+    return {"tree": nested_of_tree(t), "rank": rk, "num_roots": int(t.num_roots)}
+
+
+class TreeBlock(Family):
+    """For every shape rank s < S(n) (S from the independent Euler transform) walk the label
+    ranks 0,1,2,... until Tree.unrank raises.  Oracle: the block is exactly one labelling
+    class (n!/|Aut| distinct trees of one shape), rank(unrank(s,l)) = (s,l), and the walk
+    ends with ValueError."""
+    name = "tree_block"
+    prelude = PRELUDE
+    timeout = 120.0
+    workers = 8
+
+    def generate(self, rng, tier):
+        top = 6 if tier == "quick" else 7
+        for n in range(1, top + 1):
+            for s in range(bf_num_shapes_fast(n) + 1):
+                yield {"n": n, "s": s}
+
+    def observe(self, case):
+        n, s = case["n"], case["s"]
+        trees, ranks = [], []
+        cap = math.factorial(n) + 2
+        stop = None
+        for l in range(cap):
+            o = _unrank_obs(n, s, l)
+            if "exc" in o:
+                stop = o["exc"]
+                break
+            trees.append(o["tree"])
+            ranks.append(o["rank"])
+        return {"trees": trees, "ranks": ranks, "stop": stop}
+
+    def oracle(self, case, obs):
+        out = []
+        n, s = case["n"], case["s"]
+        S = bf_num_shapes_fast(n)
+        if s >= S:
+            if obs["trees"]:
+                key = "unrank-oor-n1-accepted" if n == 1 else "unrank-oor-shape-accepted"
+                out.append((key, "Tree.unrank(%d,(%d,0)) accepted -> %r" % (n, s, obs["trees"][0])))
+            elif obs["stop"] != "ValueError":
+                out.append(("unrank-oor-wrong-exception", repr(obs["stop"])))
+            return out
+        if obs["stop"] != "ValueError":
+            out.append(("unrank-oor-label-accepted", "n=%d s=%d: walk ended with %r after %d trees" % (n, s, obs["stop"], len(obs["trees"]))))
+        if not obs["trees"]:
+            out.append(("unrank-dense-range-rejected", "n=%d s=%d l=0 rejected" % (n, s)))
+            return out
+        fz = [freeze(t) for t in obs["trees"]]
+        valid = set(freeze(t) for t in all_topologies(tuple(range(n))))
+        if len(set(fz)) != len(fz):
+            out.append(("unrank-not-injective", "n=%d s=%d duplicates" % (n, s)))
+        if any(t not in valid for t in fz):
+            out.append(("unrank-invalid-tree", "n=%d s=%d" % (n, s)))
+        shapes = set(shape_of(t) for t in obs["trees"])
+        if len(shapes) != 1:
+            out.append(("shape-rank-mixes-shapes", "n=%d s=%d: %d shapes" % (n, s, len(shapes))))
+        elif len(fz) != n_labellings_of(obs["trees"][0]):
+            out.append(("label-range-not-dense", "n=%d s=%d: %d trees, n!/|Aut| = %d" % (n, s, len(fz), n_labellings_of(obs["trees"][0]))))
+        for l, r in enumerate(obs["ranks"]):
+            if r != [s, l]:
+                out.append(("rank-unrank-mismatch", "Tree.unrank(%d,(%d,%d)).rank() = %r" % (n, s, l, r)))
+                break
+        return out
+
+    def coq_check(self, case, obs):
+        n, s = case["n"], case["s"]
+        if not obs["trees"]:
+            if obs["stop"] == "ValueError":
+                return "err_is (tree_unrank %s %s 0) E_RANK" % (cz(n), cz(s))
+            return None
+        N = len(obs["trees"])
+        # model: exactly N label ranks, and the first / last tree of the block
+        return ("z_is (num_labellings %s %s) %s && pt_is (tree_unrank %s %s 0) (%s) && pt_is (tree_unrank %s %s %s) (%s) && err_is (tree_unrank %s %s %s) E_RANK"
+                % (cz(n), cz(s), cz(N), cz(n), cz(s), cpt(obs["trees"][0]),
+                   cz(n), cz(s), cz(N - 1), cpt(obs["trees"][-1]), cz(n), cz(s), cz(N)))
+
+    def nontrivial(self, case, obs):
+        return len(obs["trees"]) > 1
+
+    def describe(self, case, obs):
+        return {"n": case["n"]}
+
+
+class TreeRankUnrank(Family):
+    """One case per (n, shape rank, label rank): model and implementation agree on the tree
+    produced by Tree.unrank and on the rank of that tree.  The ranges come from the
+    implementation's own num_shapes/num_labellings (their density is checked independently by
+    tree_block / all_trees)."""
+    name = "tree_rank_unrank"
+    prelude = PRELUDE
+    workers = 8
+    shard = 350
+
+    def generate(self, rng, tier):
+        from tskit import combinatorics as c
+        top = 6 if tier == "quick" else 7
+        for n in range(1, top + 1):
+            for s in range(c.num_shapes(n)):
+                N = c.num_labellings(n, s)
+                for l in range(N + 1):       # l = N: out of range, must be rejected
+                    yield {"n": n, "s": s, "l": l, "N": N}
+        if tier == "quick":
+            n = 7
+            S = c.num_shapes(n)
+            for _ in range(300):
+                s = rng.randrange(S)
+                N = c.num_labellings(n, s)
+                yield {"n": n, "s": s, "l": rng.randrange(N + 1), "N": N}
+
+    def observe(self, case):
+        return _unrank_obs(case["n"], case["s"], case["l"])
+
+    def oracle(self, case, obs):
+        n, s, l = case["n"], case["s"], case["l"]
+        out = []
+        if l >= case["N"]:
+            if "exc" not in obs:
+                out.append(("unrank-oor-label-accepted", "Tree.unrank(%d,(%d,%d)) accepted" % (n, s, l)))
+            elif obs["exc"] != "ValueError":
+                out.append(("unrank-oor-wrong-exception", obs["exc"]))
+            return out
+        if "exc" in obs:
+            return [("unrank-dense-range-rejected", "Tree.unrank(%d,(%d,%d)): %s" % (n, s, l, obs["exc"]))]
+        if obs["rank"] != [s, l]:
+            out.append(("rank-unrank-mismatch", "Tree.unrank(%d,(%d,%d)).rank() = %r" % (n, s, l, obs["rank"])))
+        t = obs["tree"]
+        if sorted(leaves_of(t)) != list(range(n)) or has_unary(t) or obs["num_roots"] != 1:
+            out.append(("unrank-invalid-tree", repr(t)))
+        return out
+
+    def coq_check(self, case, obs):
+        n, s, l = cz(case["n"]), cz(case["s"]), cz(case["l"])
+        if "exc" in obs:
+            return "err_is (tree_unrank %s %s %s) E_RANK" % (n, s, l) if obs["exc"] == "ValueError" else "false"
+        t = cpt(obs["tree"])
+        chk = "pt_is (tree_unrank %s %s %s) (%s)" % (n, s, l, t)
+        if isinstance(obs["rank"], list):
+            chk += " && rank_is (tree_rank (%s)) %s %s" % (t, cz(obs["rank"][0]), cz(obs["rank"][1]))
+        return chk
+
+    def nontrivial(self, case, obs):
+        return case["n"] >= 3 and "exc" not in obs
+
+    def describe(self, case, obs):
+        return {"n": case["n"], "oor": "exc" in obs}
+
+    def shrink(self, case):
+        if case["l"] > 0:
+            yield dict(case, l=case["l"] // 2)
+            yield dict(case, l=case["l"] - 1)
+
+
+class AllTrees(Family):
+    """tskit.all_trees(n) / all_tree_shapes(n) against the brute-force set of topologies."""
+    name = "all_trees"
+    prelude = PRELUDE
+    timeout = 600.0
+    workers = 7
+    coq_timeout = 1500
+
+    def generate(self, rng, tier):
+        for n in range(1, (7 if tier == "quick" else 8)):
+            yield {"n": n}
+        if tier != "quick":
+            yield {"n": 7}
+
+    def observe(self, case):
+        import tskit
+        n = case["n"]
+        trees, ranks = [], []
+        for t in tskit.all_trees(n):
+            trees.append(nested_of_tree(t))
+            r = t.rank()
+            ranks.append([int(r[0]), int(r[1])])
+        shapes, sranks = [], []
+        for t in tskit.all_tree_shapes(n):
+            shapes.append(nested_of_tree(t))
+            r = t.rank()
+            sranks.append([int(r[0]), int(r[1])])
+        # unrank of the rank gives the same tree back (sampled for the large n)
+        step = 1 if n <= 6 else 37
+        back = all(nested_of_tree(tskit.Tree.unrank(n, tuple(ranks[i]))) == trees[i]
+                   for i in range(0, len(trees), step))
+        if n >= 7:      # keep the pipe small: the oracle needs only digests
+            return {"n_trees": len(trees), "distinct": len(set(freeze(t) for t in trees)),
+                    "all_valid": set(freeze(t) for t in trees) == set(freeze(t) for t in all_topologies(tuple(range(n)))),
+                    "ranks_dense": _dense(ranks), "shapes": shapes, "sranks": sranks, "back": back,
+                    "shape_of_rank_ok": _shape_blocks_ok(trees, ranks), "digest": True}
+        return {"trees": trees, "ranks": ranks, "shapes": shapes, "sranks": sranks, "back": back}
+
+    def oracle(self, case, obs):
+        n = case["n"]
+        out = []
+        want = all_topologies(tuple(range(n)))
+        if obs.get("digest"):
+            if obs["n_trees"] != len(want) or obs["distinct"] != obs["n_trees"] or not obs["all_valid"]:
+                out.append(("all-trees-not-exactly-once", "n=%d: %d listed, %d distinct, %d topologies exist" % (n, obs["n_trees"], obs["distinct"], len(want))))
+            if not obs["ranks_dense"] or not obs["shape_of_rank_ok"]:
+                out.append(("all-trees-not-in-rank-order", "n=%d" % n))
+        else:
+            got = [freeze(t) for t in obs["trees"]]
+            if len(set(got)) != len(got) or set(got) != set(freeze(t) for t in want):
+                out.append(("all-trees-not-exactly-once", "n=%d: %d listed, %d distinct, %d topologies exist" % (n, len(got), len(set(got)), len(want))))
+            if not _dense(obs["ranks"]) or not _shape_blocks_ok(obs["trees"], obs["ranks"]):
+                out.append(("all-trees-not-in-rank-order", "n=%d: %r" % (n, obs["ranks"][:12])))
+        if not obs["back"]:
+            out.append(("rank-unrank-mismatch", "n=%d: unrank(rank(t)) != t for a tree of all_trees" % n))
+        # all_tree_shapes: one tree per unlabelled shape, in shape-rank order, default labelling
+        nshape = len(set(shape_of(t) for t in want))
+        sh = [shape_of(t) for t in obs["shapes"]]
+        if len(sh) != nshape or len(set(sh)) != nshape or nshape != bf_num_shapes_fast(n):
+            out.append(("all-tree-shapes-not-exactly-once", "n=%d: %d listed, %d distinct, %d shapes exist" % (n, len(sh), len(set(sh)), nshape)))
+        if obs["sranks"] != [[i, 0] for i in range(len(sh))]:
+            out.append(("all-tree-shapes-not-in-rank-order", "n=%d: %r" % (n, obs["sranks"][:12])))
+        return out
+
+    def coq_check(self, case, obs):
+        n = case["n"]
+        shapes = "pts_are (all_tree_shapes %s) [%s]" % (cz(n), "; ".join(cpt(t) for t in obs["shapes"]))
+        if n >= 7:
+            return shapes
+        if n == 6:
+            return ("match all_trees %s with Ok l => Z.of_nat (length l) =? %s | _ => false end && %s"
+                    % (cz(n), cz(len(obs["trees"])), shapes))
+        return "pts_are (all_trees %s) [%s] && %s" % (cz(n), "; ".join(cpt(t) for t in obs["trees"]), shapes)
+
+    def nontrivial(self, case, obs):
+        return case["n"] >= 3
+
+    def describe(self, case, obs):
+        return {"n": case["n"]}
+
+
+def _dense(ranks):
+    """(0,0), then label+1 within a shape or (shape+1, 0)."""
+    if not ranks or ranks[0] != [0, 0]:
+        return False
+    for a, b in zip(ranks, ranks[1:]):
+        if not (b == [a[0], a[1] + 1] or b == [a[0] + 1, 0]):
+            return False
+    return True
+
+
+def _shape_blocks_ok(trees, ranks):
+    """Trees sharing a shape rank share one unlabelled shape, different shape ranks differ, and
+    every block is a full labelling class."""
+    by = {}
+    for t, r in zip(trees, ranks):
+        by.setdefault(r[0], []).append(t)
+    seen = set()
+    for s, ts in by.items():
+        sh = set(shape_of(t) for t in ts)
+        if len(sh) != 1 or (sh & seen):
+            return False
+        seen |= sh
+        if len(ts) != n_labellings_of(ts[0]):
+            return False
+    return True
+
+
+class AllLabellings(Family):
+    """tskit.all_tree_labellings(tree): every labelling of the shape of `tree` exactly once,
+    in label-rank order."""
+    name = "all_labellings"
+    prelude = PRELUDE
+    workers = 6
+    timeout = 60.0
+
+    def generate(self, rng, tier):
+        for n in range(1, 5):
+            seen = set()
+            for t in all_topologies(tuple(range(n))):
+                if shape_of(t) not in seen:
+                    seen.add(shape_of(t))
+                    yield {"tree": t}
+        for _ in range(25 if tier == "quick" else 150):
+            n = rng.randrange(4, 6 if tier == "quick" else 7)
+            yield {"tree": random_topology(rng, range(n))}
+
+    def observe(self, case):
+        import tskit
+        t = build_tree(case["tree"])
+        trees, ranks = [], []
+        for x in tskit.all_tree_labellings(t):
+            trees.append(nested_of_tree(x))
+            r = x.rank()
+            ranks.append([int(r[0]), int(r[1])])
+        r0 = t.rank()
+        return {"order": nested_of_tree(t, keep_order=True), "trees": trees, "ranks": ranks, "rank0": [int(r0[0]), int(r0[1])]}
+
+    def oracle(self, case, obs):
+        out = []
+        t = case["tree"]
+        fz = [freeze(x) for x in obs["trees"]]
+        if (len(set(fz)) != len(fz) or len(fz) != n_labellings_of(t)
+                or any(shape_of(x) != shape_of(t) for x in obs["trees"])
+                or any(sorted(leaves_of(x)) != sorted(leaves_of(t)) for x in obs["trees"])):
+            out.append(("all-labellings-not-exactly-once", "%r: %d listed, %d distinct, n!/|Aut| = %d" % (t, len(fz), len(set(fz)), n_labellings_of(t))))
+        if obs["ranks"] != [[obs["rank0"][0], i] for i in range(len(fz))]:
+            out.append(("all-labellings-not-in-rank-order", "%r: %r" % (t, obs["ranks"][:10])))
+        return out
+
+    def coq_check(self, case, obs):
+        if len(obs["trees"]) > 130:
+            return ("match all_tree_labellings (%s) with Ok l => (Z.of_nat (length l) =? %s) && opt_eqb pt_eqb (option_map pt_canon (nth_error l 77)) (Some (%s)) | _ => false end"
+                    % (cpt(obs["order"]), cz(len(obs["trees"])), cpt(obs["trees"][77])))
+        return "pts_are (all_tree_labellings (%s)) [%s]" % (cpt(obs["order"]), "; ".join(cpt(x) for x in obs["trees"]))
+
+    def nontrivial(self, case, obs):
+        return len(obs["trees"]) > 1
+
+    def describe(self, case, obs):
+        return {"n": len(leaves_of(case["tree"]))}
+
+
+class TreeBig(Family):
+    """Big-integer ranks for n up to 16: random shape rank below S(n) (Euler transform) and a
+    label rank that is a random fraction of the implementation's num_labellings (checked
+    against n!/|Aut| of the tree that comes out)."""
+    name = "tree_big"
+    prelude = PRELUDE
+    workers = 8
+    timeout = 120.0
+    shard = 12
+    coq_timeout = 1200
+
+    def generate(self, rng, tier):
+        for _ in range(72 if tier == "quick" else 600):
+            n = rng.randrange(8, 17)
+            S = bf_num_shapes_fast(n)
+            s = rng.choice([0, S - 1, rng.randrange(S), rng.randrange(S), rng.randrange(S)])
+            yield {"n": n, "s": s, "num": rng.randrange(1 << 64), "edge": rng.choice([None, None, None, "last", "first", "oor"])}
+
+    def observe(self, case):
+        from tskit import combinatorics as c
+        n, s = case["n"], case["s"]
+        N = c.num_labellings(n, s)
+        l = (case["num"] * N) >> 64
+        if case["edge"] == "last":
+            l = N - 1
+        elif case["edge"] == "first":
+            l = 0
+        elif case["edge"] == "oor":
+            l = N
+        o = _unrank_obs(n, s, l)
+        o["N"] = N
+        o["l"] = l
+        return o
+
+    def oracle(self, case, obs):
+        n, s, l = case["n"], case["s"], obs["l"]
+        out = []
+        if case["edge"] == "oor":
+            if "exc" not in obs:
+                out.append(("unrank-oor-label-accepted", "Tree.unrank(%d,(%d,%d)) accepted" % (n, s, l)))
+            elif obs["exc"] != "ValueError":
+                out.append(("unrank-oor-wrong-exception", obs["exc"]))
+            return out
+        if "exc" in obs:
+            return [("unrank-dense-range-rejected", "Tree.unrank(%d,(%d,%d)): %s" % (n, s, l, obs["exc"]))]
+        if obs["rank"] != [s, l]:
+            out.append(("rank-unrank-mismatch", "Tree.unrank(%d,(%d,%d)).rank() = %r" % (n, s, l, obs["rank"])))
+        t = obs["tree"]
+        if sorted(leaves_of(t)) != list(range(n)) or has_unary(t) or obs["num_roots"] != 1:
+            out.append(("unrank-invalid-tree", repr(t)))
+        elif obs["N"] != n_labellings_of(t):
+            out.append(("label-range-not-dense", "num_labellings(%d,%d) = %d but n!/|Aut| = %d" % (n, s, obs["N"], n_labellings_of(t))))
+        return out
+
+    def coq_check(self, case, obs):
+        n, s, l = cz(case["n"]), cz(case["s"]), cz(obs["l"])
+        if "exc" in obs:
+            return "err_is (tree_unrank %s %s %s) E_RANK" % (n, s, l) if obs["exc"] == "ValueError" else "false"
+        t = cpt(obs["tree"])
+        chk = "pt_is (tree_unrank %s %s %s) (%s) && z_is (num_labellings %s %s) %s" % (n, s, l, t, n, s, cz(obs["N"]))
+        if isinstance(obs["rank"], list):
+            chk += " && rank_is (tree_rank (%s)) %s %s" % (t, cz(obs["rank"][0]), cz(obs["rank"][1]))
+        return chk
+
+    def describe(self, case, obs):
+        return {"n": case["n"], "edge": str(case["edge"])}
+
+
+class TreeOOR(Family):
+    """Out-of-range ranks must be rejected (ValueError)."""
+    name = "tree_oor"
+    prelude = PRELUDE
+    workers = 6
+    timeout = 60.0
+
+    def generate(self, rng, tier):
+        from tskit import combinatorics as c
+        for n in range(1, 9):
+            S = bf_num_shapes_fast(n)
+            for s in (S, S + 1, 2 * S + 7, 10 ** 30):
+                for l in (0, 1):
+                    yield {"n": n, "s": s, "l": l, "why": "shape"}
+            for s in sorted(set([0, S - 1] + [rng.randrange(S) for _ in range(3)])):
+                N = c.num_labellings(n, s)
+                for l in (N, N + 1, 3 * N + 5, 10 ** 40):
+                    yield {"n": n, "s": s, "l": l, "why": "label"}
+                yield {"n": n, "s": s, "l": -1, "why": "negative"}
+                yield {"n": n, "s": -1, "l": 0, "why": "negative"}
+                yield {"n": n, "s": -3, "l": -2, "why": "negative"}
+        for n in (0, -1, -5):
+            for s, l in ((0, 0), (1, 0), (0, 1)):
+                yield {"n": n, "s": s, "l": l, "why": "n<1"}
+
+    def observe(self, case):
+        return _unrank_obs(case["n"], case["s"], case["l"])
+
+    def oracle(self, case, obs):
+        n, s, l = case["n"], case["s"], case["l"]
+        if "exc" not in obs:
+            if n == 1 and case["why"] == "shape":
+                key = "unrank-oor-n1-accepted"
+            else:
+                key = "unrank-oor-%s-accepted" % case["why"]
+            return [(key, "Tree.unrank(%d,(%d,%d)) accepted and returned %r with rank %r" % (n, s, l, obs["tree"], obs["rank"]))]
+        if obs["exc"] != "ValueError":
+            return [("unrank-oor-wrong-exception", "Tree.unrank(%d,(%d,%d)): %s" % (n, s, l, obs["exc"]))]
+        return []
+
+    def coq_check(self, case, obs):
+        n, s, l = cz(case["n"]), cz(case["s"]), cz(case["l"])
+        if "exc" in obs:
+            return "err_is (tree_unrank %s %s %s) E_RANK" % (n, s, l) if obs["exc"] == "ValueError" else "false"
+        return "pt_is (tree_unrank %s %s %s) (%s)" % (n, s, l, cpt(obs["tree"]))
+
+    def describe(self, case, obs):
+        return {"why": case["why"], "n": case["n"] if case["n"] <= 1 else "2+"}
+
+
+class RankInvariance(Family):
+    """rank() of real tskit Trees built from tables: invariant under renumbering of internal
+    nodes, order of the edge rows / children, branch lengths and sequence length; equal to the
+    rank of the listed topology; polytomies included; order-preserving renumbering of the
+    leaves (leaf ids interleaved with internal ids) keeps the rank."""
+    name = "rank_invariance"
+    prelude = PRELUDE
+    workers = 8
+    timeout = 60.0
+
+    def generate(self, rng, tier):
+        for _ in range(260 if tier == "quick" else 2500):
+            n = rng.choice([2, 3, 3, 4, 4, 5, 5, 6, 6, 7, 8, 9, 10, 12])
+            yield {"tree": random_topology(rng, range(n), p_poly=rng.choice([0, 0.3, 0.6])), "seed": rng.randrange(1 << 30)}
+        # malformed stream: unary nodes and several roots are refused
+        for _ in range(30):
+            n = rng.randrange(2, 6)
+            yield {"tree": random_topology(rng, range(n)), "seed": rng.randrange(1 << 30), "bad": rng.choice(["unary", "multiroot"])}
+
+    def observe(self, case):
+        import tskit
+        rng = random.Random(case["seed"])
+        t = case["tree"]
+        if case.get("bad"):
+            tables = build_tree(t).tree_sequence.dump_tables()
+            if case["bad"] == "unary":
+                root = tables.nodes.num_rows - 1
+                top = tables.nodes.add_row(time=max(tables.nodes.time) + 1)
+                tables.edges.add_row(0, tables.sequence_length, top, build_tree(t).root)
+            else:
+                tables.nodes.add_row(flags=1, time=0)
+            tables.sort()
+            tr = tables.tree_sequence().first()
+            try:
+                r = tr.rank()
+                return {"bad_rank": [int(r[0]), int(r[1])]}
+            except Exception as e:
+                return {"bad_exc": exc_class(e)}
+        n = len(leaves_of(t))
+        base = build_tree(t)
+        r0 = base.rank()
+        out = {"rank": [int(r0[0]), int(r0[1])], "order": nested_of_tree(base, keep_order=True)}
+        n_int = base.tree_sequence.num_nodes - n
+        variants = []
+        for _ in range(3):
+            ids = list(range(n, n + n_int))
+            rng.shuffle(ids)
+            v = build_tree(t, ids=ids, rng=rng, jitter=True)
+            r = v.rank()
+            variants.append({"rank": [int(r[0]), int(r[1])], "order": nested_of_tree(v, keep_order=True)})
+        out["variants"] = variants
+        # order-preserving leaf renumbering: leaf ids = a random n-subset of [0, total)
+        total = n + n_int
+        leaf_ids = sorted(rng.sample(range(total), n))
+        relabel = lambda x: leaf_ids[x] if isinstance(x, int) else [relabel(c) for c in x]
+        ids = [i for i in range(total) if i not in set(leaf_ids)]
+        rng.shuffle(ids)
+        w = build_tree(relabel(t), ids=ids, rng=rng, jitter=True)
+        r = w.rank()
+        out["mono"] = {"rank": [int(r[0]), int(r[1])], "order": nested_of_tree(w, keep_order=True)}
+        out["back"] = nested_of_tree(tskit.Tree.unrank(n, tuple(out["rank"])))
+        return out
+
+    def oracle(self, case, obs):
+        if case.get("bad"):
+            if "bad_rank" in obs:
+                return [("rank-accepts-%s" % case["bad"], repr(obs["bad_rank"]))]
+            return [] if obs["bad_exc"] == "ValueError" else [("rank-bad-wrong-exception", obs["bad_exc"])]
+        out = []
+        for v in obs["variants"]:
+            if v["rank"] != obs["rank"]:
+                out.append(("rank-not-invariant", "%r: %r vs %r" % (case["tree"], v["rank"], obs["rank"])))
+                break
+        if obs["mono"]["rank"] != obs["rank"]:
+            out.append(("rank-not-invariant-leaf-renumbering", "%r: %r vs %r" % (case["tree"], obs["mono"]["rank"], obs["rank"])))
+        if obs["back"] != case["tree"]:
+            out.append(("unrank-rank-mismatch", "unrank(rank(%r)) = %r" % (case["tree"], obs["back"])))
+        return out
+
+    def coq_check(self, case, obs):
+        if case.get("bad"):
+            return None
+        terms = ["rank_is (tree_rank (%s)) %s %s" % (cpt(o["order"]), cz(o["rank"][0]), cz(o["rank"][1]))
+                 for o in [obs] + obs["variants"][:1] + [obs["mono"]]]
+        return " && ".join(terms)
+
+    def nontrivial(self, case, obs):
+        return not case.get("bad") and len(leaves_of(case["tree"])) >= 3
+
+    def describe(self, case, obs):
+        t = case["tree"]
+        return {"n": len(leaves_of(t)), "polytomy": _has_poly(t), "bad": str(case.get("bad"))}
+
+    def shrink(self, case):
+        t = case["tree"]
+        if isinstance(t, list) and not case.get("bad"):
+            for i in range(len(t)):
+                if len(t) > 2:
+                    keep = [c for j, c in enumerate(t) if j != i]
+                    ls = sorted(leaves_of(keep))
+                    m = {x: k for k, x in enumerate(ls)}
+                    rel = lambda x: m[x] if isinstance(x, int) else [rel(c) for c in x]
+                    yield dict(case, tree=canon(rel(keep))[0])
+
+
+def _has_poly(t):
+    return (not isinstance(t, int)) and (len(t) > 2 or any(_has_poly(c) for c in t))
+
+
+# ----------------------------------------------------------------------------------------
+# count_topologies
+# ----------------------------------------------------------------------------------------
+
+_RANK_OF = {}
+
+
+def _rank_table(k):
+    """canonical topology on labels 0..k-1 -> rank, from tskit.all_trees(k) (whose bijectivity
+    and order are what the all_trees / tree_block families check against brute force)."""
+    import tskit
+    if k not in _RANK_OF:
+        d = {}
+        for t in tskit.all_trees(k):
+            r = t.rank()
+            d[freeze(nested_of_tree(t))] = (int(r[0]), int(r[1]))
+        _RANK_OF[k] = d
+    return _RANK_OF[k]
+
+
+def brute_count(parent, sample_sets):
+    """expected[key][rank] = number of ways to pick one sample from every set of the key such
+    that the picks hang under one root; the topology is the tree reduced to the picks (unary
+    nodes removed), leaves labelled by the position of their set in the key."""
+    n = len(parent)
+    kids = {}
+    for c, p in enumerate(parent):
+        if p != -1:
+            kids.setdefault(p, []).append(c)
+    exp = {}
+    idxs = range(len(sample_sets))
+    for size in range(1, len(sample_sets) + 1):
+        for key in itertools.combinations(idxs, size):
+            table = _rank_table(size)
+            for pick in itertools.product(*[sample_sets[i] for i in key]):
+                label = {u: pos for pos, u in enumerate(pick)}
+                below = {}
+                roots = set()
+                for u in pick:
+                    v = u
+                    while True:
+                        below.setdefault(v, set()).add(u)
+                        if parent[v] == -1:
+                            roots.add(v)
+                            break
+                        v = parent[v]
+                if len(roots) != 1:
+                    continue
+
+                def red(v):
+                    if v in label:
+                        return label[v]
+                    ch = [c for c in kids.get(v, []) if c in below]
+                    if len(ch) == 1:
+                        return red(ch[0])
+                    return [red(c) for c in ch]
+                t = canon(red(next(iter(roots))))[0]
+                rk = table[freeze(t)]
+                d = exp.setdefault(",".join(map(str, key)), {})
+                kk = "%d,%d" % rk
+                d[kk] = d.get(kk, 0) + 1
+    return exp
+
+
+def _counter_obs(tc):
+    out = {}
+    for key, counter in tc.topologies.items():
+        d = {"%d,%d" % (int(r[0]), int(r[1])): int(c) for r, c in counter.items() if c != 0}
+        if d:
+            out[",".join(str(int(i)) for i in key)] = d
+    return out
+
+
+class CountTopologies(Family):
+    """Tree.count_topologies / TreeSequence.count_topologies on random small tree sequences
+    (harness/gen_ts.py, samples are leaves) x families of disjoint sample sets, against the
+    brute force over all one-sample-per-set choices; incremental == per tree."""
+    name = "count_topologies"
+    workers = 8
+    timeout = 120.0
+
+    def generate(self, rng, tier):
+        from harness import gen_ts
+        made = 0
+        want = 220 if tier == "quick" else 2500
+        while made < want:
+            desc = gen_ts.random_desc(rng, max_nodes=rng.choice([6, 8, 10, 12]), max_L=rng.choice([1, 3, 6]),
+                                      max_sites=0, max_muts=0, metadata=False, individuals=False,
+                                      populations=False, p_internal_sample=0.0,
+                                      p_gap=rng.choice([0, 0.1]), p_root=rng.choice([0.02, 0.1, 0.2]),
+                                      scale=rng.choice([1, 0.5, 2.5]))
+            samples = [i for i, nd in enumerate(desc["nodes"]) if nd[0] & 1]
+            if len(samples) < 2:
+                continue
+            rng.shuffle(samples)
+            nsets = rng.randrange(1, min(4, len(samples)) + 1)
+            used = samples[:rng.randrange(nsets, len(samples) + 1)]
+            sets = [[] for _ in range(nsets)]
+            for i, u in enumerate(used):
+                sets[i if i < nsets else rng.randrange(nsets)].append(u)
+            if rng.random() < 0.08:
+                sets.append([])          # an empty sample set
+            yield {"desc": desc, "sets": [sorted(s) for s in sets]}
+            made += 1
+
+    def observe(self, case):
+        from harness import gen_ts
+        desc, sets = case["desc"], case["sets"]
+        ts = gen_ts.build_tables(desc).tree_sequence()
+        per_tree, lefts = [], []
+        for tree in ts.trees():
+            lefts.append(tree.interval.left / desc["scale"])
+            try:
+                per_tree.append(_counter_obs(tree.count_topologies(sets)))
+            except Exception as e:
+                per_tree.append({"exc": exc_class(e) + ": " + str(e)[:80]})
+        try:
+            inc = [_counter_obs(tc) for tc in ts.count_topologies(sets)]
+        except Exception as e:
+            inc = {"exc": exc_class(e) + ": " + str(e)[:80]}
+        return {"lefts": lefts, "per_tree": per_tree, "incremental": inc}
+
+    def oracle(self, case, obs):
+        from harness import gen_ts
+        desc, sets = case["desc"], case["sets"]
+        out = []
+        if isinstance(obs["incremental"], dict):
+            return [("count-treeseq-raises", obs["incremental"]["exc"])]
+        if len(obs["incremental"]) != len(obs["per_tree"]):
+            return [("count-treeseq-length", "%d vs %d trees" % (len(obs["incremental"]), len(obs["per_tree"])))]
+        for k, left in enumerate(obs["lefts"]):
+            x = int(round(left))
+            parent = gen_ts.parent_at(desc, x)
+            want = brute_count(parent, sets)
+            got = obs["per_tree"][k]
+            if "exc" in got:
+                out.append(("count-tree-raises", got["exc"]))
+            elif got != want:
+                out.append(("count-tree-mismatch", "tree %d at %r: got %r want %r" % (k, left, got, want)))
+            if obs["incremental"][k] != want:
+                out.append(("count-treeseq-mismatch", "tree %d at %r: got %r want %r" % (k, left, obs["incremental"][k], want)))
+            if "exc" not in got and obs["incremental"][k] != got:
+                out.append(("count-incremental-differs", "tree %d at %r" % (k, left)))
+            if out:
+                break
+        return out
+
+    def nontrivial(self, case, obs):
+        return len(case["sets"]) >= 2 and any(len(d) > 1 for d in obs["per_tree"] if "exc" not in d)
+
+    def describe(self, case, obs):
+        return {"nsets": len(case["sets"]), "ntrees": len(obs["lefts"]),
+                "max_key": max((len(k.split(",")) for d in obs["per_tree"] for k in d if k != "exc"), default=0)}
+
+    def shrink(self, case):
+        sets = case["sets"]
+        for i in range(len(sets)):
+            if len(sets) > 1:
+                yield dict(case, sets=sets[:i] + sets[i + 1:])
+            for j in range(len(sets[i])):
+                if len(sets[i]) > 1:
+                    yield dict(case, sets=sets[:i] + [sets[i][:j] + sets[i][j + 1:]] + sets[i + 1:])
+
+
+FAMILIES = [Comb, CombRank, CombWR, Parts, NumShapes, TreeBlock, TreeRankUnrank, AllTrees,
+            AllLabellings, TreeBig, TreeOOR, RankInvariance, CountTopologies]
+
+NOT_COVERED = [
+    "count_topologies is tied to the brute-force definition only differentially (no Gallina model of PartialTopologyCounter/TopologyCounter yet)",
+    "RankTree bijection theorems are proved for bounded n (bound in the statement); the unbounded statements are kept as comments",
+    "n > 16 leaves is not exercised against the implementation (num_shapes/unrank cost grows steeply; measured 29 s at n = 20)",
+]
